@@ -18,7 +18,7 @@ RULE = ("Inner applications = generated response recipes of every class (several
         "ASGI body events, repeated headers, odd reason phrases), plus apps raising before / after start or mid-body; wrapped in identity `middleware` stacks of depth "
         "1-3, identity `decorator` stacks of depth 1-3 and a middleware that edits exactly one header; GET/HEAD, Range for files; both interfaces. "
         "Non-trivial = inner app with repeated headers, >=2 body chunks, an empty body, or an error; distinct = (recipe, wrapper, depth, request, interface).")
-RULE += ' Also: bodies above 1 MiB, latin-1 Set-Cookie lines, headers handed over as a one-shot iterator, a middleware appending to an existing header under a mixed-case name, iterators without close() that raise after the first chunk, a repeated header whose first value is empty, one reused bytearray as ASGI body (the emulators snapshot it when written).'
+RULE += ' Also: 2-4 requests with bodies of different lengths in flight together through one wrapped app; bodies above 1 MiB, latin-1 Set-Cookie lines, headers handed over as a one-shot iterator, a middleware appending to an existing header under a mixed-case name, iterators without close() that raise after the first chunk, a repeated header whose first value is empty, one reused bytearray as ASGI body (the emulators snapshot it when written).'
 ASSUMPTIONS = [
     "headers are compared as multisets with case-folded names; reason phrases and body chunking are not compared",
     "Set-Cookie expiry dates are masked (two runs may straddle a second)",
@@ -187,6 +187,40 @@ def compare(ctx, iface, recipe, wrapper, depth, req_desc, bare, wrapped, count, 
     probs = automata.check_wsgi(wrapped["events"]) if iface == "wsgi" else automata.check_asgi_http(wrapped["events"])
     for w, d in probs:
         ctx.violation(f"wrapped-protocol|{w}|{iface}", case, d)
+
+
+def in_flight_through_wrappers(ctx, wrapper, depth, nreq, nchunks):
+    """2-4 requests in flight together through ONE wrapped application whose inner bodies have several chunks (WSGI: all calls
+    made first, the iterables consumed in rotation; ASGI: tasks): each client gets what it gets alone (vf/inflight.py)"""
+    import asyncio
+
+    from baize import asgi, wsgi
+    from vf import inflight
+
+    def winner(environ, start_response):
+        j = environ["PATH_INFO"][-1]
+        start_response("200 OK", [("Content-Type", "text/plain"), ("Set-Cookie", f"who={j}"), ("X-Who", j)])
+
+        def body():
+            for k in range(nchunks + 2 * int(j)):  # bodies of different lengths: some requests end while others are mid-body
+                yield b"slow%s-%d;" % (j.encode(), k)
+        return body()
+
+    async def ainner(scope, receive, send):
+        j = scope["path"][-1]
+        await asyncio.sleep(0)
+        await send({"type": "http.response.start", "status": 200, "headers": [(b"content-type", b"text/plain"), (b"set-cookie", f"who={j}".encode()), (b"x-who", j.encode())]})
+        for k in range(nchunks + 2 * int(j)):
+            await asyncio.sleep(0)
+            await send({"type": "http.response.body", "body": b"slow%s-%d;" % (j.encode(), k), "more_body": True})
+        await send({"type": "http.response.body", "body": b"", "more_body": False})
+    for iface, ns, inner in (("wsgi", wsgi, winner), ("asgi", asgi, ainner)):
+        app = inner
+        m = {"middleware": identity_middleware, "edit": edit_middleware}[wrapper](ns, iface)
+        for _ in range(depth):
+            app = m(app)
+        reqs = [drivers.Req(path=b"/r%d" % j) for j in range(nreq)]
+        inflight.check_group(ctx, iface, app, reqs, "wrapped-app", {"in_flight_through": wrapper, "depth": depth, "requests": nreq, "chunks": nchunks})
 
 
 def overlapped_requests(ctx, rng):
@@ -375,6 +409,13 @@ def run(ctx):
     for i in range(ctx.scale(150, 6000)):
         case = overlapped_requests(ctx, rng)
         ctx.case(repr(case))
+    for wrapper in ("middleware", "edit"):
+        for depth in (1, 2, 3):
+            for nreq in (2, 4):
+                for nchunks in (1, 4):
+                    if ctx.mine(depth * 16 + nreq * 2 + nchunks):
+                        in_flight_through_wrappers(ctx, wrapper, depth, nreq, nchunks)
+                        ctx.case_enum(True)
     for i, (rec, rq) in enumerate(todo):
         nt = run_case(ctx, rec, rq, rng)
         ctx.case((repr(rec), repr(rq)) if nt else None)
@@ -385,6 +426,10 @@ def run(ctx):
 def replay(ctx, case):
     import os
     contracts.arm_list_headers()
+    if "in_flight_through" in case:
+        in_flight_through_wrappers(ctx, case["in_flight_through"], case["depth"], case["requests"], case["chunks"])
+        ctx.case(1)
+        return
     r = case["recipe"]
     if "bytes_head" in repr(r):
         print("recipe contains a large truncated body; re-run with the recorded VERIF_SEED/tier to reproduce")
